@@ -414,3 +414,42 @@ def specTranscript (G : NumKind → Grammar) (bytes : List Byte) : List Op → N
     (r, off + n) :: specTranscript G bytes ops (off + n)
 
 end KV.FilePiece
+
+/-! ### util::ReadCompressed: chaining of members (read_compressed.cc:110-146, 358-395)
+
+A compressed input is a chain of members; each member decodes (by a trusted third-party
+decoder) to some plain bytes.  The state of `ReadCompressed` is the plain output still owed by
+each remaining member (head = the member being decoded).  `StreamCompressed::Read` returns
+whatever the decoder produced this round — any positive amount up to the request — and when the
+current member ends without having produced anything it replaces itself by the reader of the
+next member (`ReadFactory`) and forwards the call; `Complete::Read` returns 0. -/
+namespace KV.FilePiece
+
+abbrev Chain := List (List Byte)
+
+/-- `ReadCompressed::Read(to, amount)` when `i` plain bytes have been delivered so far -/
+def rcRead (orc : Nat → Nat) : Chain → Nat → Nat → List Byte × Chain
+  | [], _, _ => ([], [])
+  | [] :: ms, i, a => rcRead orc ms i a
+  | (c :: r) :: ms, i, a =>
+    let n := chunk orc i a (r.length + 1)
+    ((c :: r).take n, (c :: r).drop n :: ms)
+
+/-- call `Read` with request sizes `amt` until it returns 0 (`ReadOrEOF`, `LineInput::Run`, `ReadShift`) -/
+def rcReadAll (orc amt : Nat → Nat) : Nat → Chain → Nat → List Byte
+  | 0, _, _ => []
+  | f + 1, ch, i =>
+    match rcRead orc ch i (amt i) with
+    | ([], _) => []
+    | (b :: bs, ch') => (b :: bs) ++ rcReadAll orc amt f ch' (i + (bs.length + 1))
+
+/-- members of a raw file: `dec` decodes one member off the front (`none`: corrupt) -/
+def decodeChain (dec : List Byte → Option (List Byte × List Byte)) : Nat → List Byte → Option Chain
+  | 0, _ => none
+  | f + 1, raw =>
+    if raw.isEmpty then some []
+    else match dec raw with
+      | none => none
+      | some (plain, rest) => (decodeChain dec f rest).map (plain :: ·)
+
+end KV.FilePiece
